@@ -101,22 +101,30 @@ func overrideMeta(l, r *Out) string {
 	return metaStr(m)
 }
 
-func runPart(prog *gen.Program, stmts []gen.Stmt, bal env.Bal) *Out {
+func runPart(prog *gen.Program, stmts []gen.Stmt, bal env.Bal, vars ...map[string]string) *Out {
 	pp := &gen.Program{Vars: prog.Vars, HasVars: prog.HasVars, Stmts: stmts}
 	pr, ok := parseQuiet(gen.Text(pp))
 	if !ok {
 		return &Out{Panic: "harness: part did not parse"}
 	}
-	return RunReal(pr, nil, env.New(env.Exact, bal, nil), nil)
+	var vs map[string]string
+	if len(vars) > 0 {
+		vs = vars[0]
+	}
+	return RunReal(pr, vs, env.New(env.Exact, bal, nil), nil)
 }
 
 // c09Check: splits = which split points to check (nil = all).
-func c09Check(w *mc.Worker, c *seqCase, bal env.Bal, onlyLast bool) {
+func c09Check(w *mc.Worker, c *seqCase, bal env.Bal, onlyLast bool, varsOpt ...map[string]string) {
+	var vars map[string]string
+	if len(varsOpt) > 0 {
+		vars = varsOpt[0]
+	}
 	n := len(c.Stmts)
-	whole := RunReal(c.PR, nil, env.New(env.Exact, bal, nil), nil)
-	key := c.Text + "|" + balStr(bal)
+	whole := RunReal(c.PR, vars, env.New(env.Exact, bal, nil), nil)
+	key := c.Text + "|" + varsStr(vars) + "|" + balStr(bal)
 	report := func(clause, msg, expected string) {
-		cs := Case{Script: c.Text, Balances: balStr(bal), Observed: whole.Class() + ": " + postingsStr(whole.Postings) + " meta{" + metaStr(whole) + "}", Expected: expected}
+		cs := Case{Script: c.Text, Vars: vars, Balances: balStr(bal), Observed: whole.Class() + ": " + postingsStr(whole.Postings) + " meta{" + metaStr(whole) + "}", Expected: expected}
 		if whole.Err != nil {
 			cs.Observed = whole.Class() + ": " + whole.Err.Error()
 		}
@@ -134,7 +142,7 @@ func c09Check(w *mc.Worker, c *seqCase, bal env.Bal, onlyLast bool) {
 	chainFailAt := -1
 	for i, st := range c.Stmts {
 		cur := env.CloneBal(states[i])
-		o := runPart(c.Prog, []gen.Stmt{st}, cur)
+		o := runPart(c.Prog, []gen.Stmt{st}, cur, vars)
 		if o.Panic != "" {
 			w.Eval(key, false, "panic-in-part")
 			return
@@ -148,7 +156,7 @@ func c09Check(w *mc.Worker, c *seqCase, bal env.Bal, onlyLast bool) {
 		nb := env.CloneBal(states[i])
 		applyPostings(nb, o.Postings)
 		if sv, ok := st.(*gen.Save); ok {
-			acct, asset, amt, good := ref.SaveParams(c.Prog, ref.Inputs{Bal: bal}, sv)
+			acct, asset, amt, good := ref.SaveParams(c.Prog, ref.Inputs{Vars: vars, Bal: bal}, sv)
 			if !good {
 				w.Eval(key, false, "unevaluable-save")
 				return
@@ -186,8 +194,8 @@ func c09Check(w *mc.Worker, c *seqCase, bal env.Bal, onlyLast bool) {
 		if onlyLast && k != n-1 {
 			continue
 		}
-		left := runPart(c.Prog, c.Stmts[:k], bal)
-		right := runPart(c.Prog, c.Stmts[k:], states[k])
+		left := runPart(c.Prog, c.Stmts[:k], bal, vars)
+		right := runPart(c.Prog, c.Stmts[k:], states[k], vars)
 		if left.Panic != "" || right.Panic != "" {
 			continue
 		}
@@ -245,6 +253,11 @@ func runC09(w *mc.Worker) {
 		runSeqSpace(w, &seqSpace{Name: name, Bounds: bounds, Ops: ops, MinLen: minLen, MaxLen: maxLen, Budget: budget, Sheets: sh},
 			func(c *seqCase, bal env.Bal) { c09Check(w, c, bal, false) })
 	}
+	vl := 2
+	if w.Tier == "thorough" {
+		vl = 3
+	}
+	runVarSeqSpace(w, fmt.Sprintf("vars-L%d", vl), 2, vl, func(c *seqCase, vars map[string]string, bal env.Bal) { c09Check(w, c, bal, false, vars) })
 	core := append(append([]op{}, coreOps()[:22]...), metaOps()...)
 	if w.Tier == "quick" {
 		seq("seq-L2", "all sequences of length 2 over the 35-statement alphabet (28 money statements + 7 metadata calls, <= 2 deviations) x 30 sheets, every split", 2, 2, 2, sheetsQ)
